@@ -243,4 +243,22 @@ CLAIMED = {
          "of the read loop; heads above MaxHandshakeResponseSize (64 KiB) are refused by design and out of the oracle's scope. "
          "TLS dialling and the server role are not modelled."),
    technique="Coq proof (stream conservation by induction over the read loop, parser invariances); differential correspondence against a raw server socket + independent oracle"),
+ "C13": dict(
+   text=("PARTIAL proof + full correspondence. Coq theorems (6, closed): (owners stay alive) in every reachable state of the "
+         "event-loop model - all scripts, batches and handler programs - an object with a read or write deferred to the poller "
+         "is in the IO registry, also after its other direction completed or was cancelled; (no foreign close) for every "
+         "history of creations and repeated Closes over a lowest-free descriptor table, objects with the close-once guard own "
+         "distinct open descriptors and a repeated Close touches nothing, while the unguarded Close the listener and packet "
+         "conn had is REFUTED; (no leaks) every error path of every constructor in a table transcribed from the code closes "
+         "what it allocated and restores the table (finite sweep). The tie for the transcribed part is a /proc/self/fd census "
+         "after every operation: every constructor on its success path and under every failure injectable without "
+         "privileges (refused port, address in use, non-local address, missing file, broadcast without permission, websocket "
+         "server answering 400 / garbage / closing mid-response, a second failed handshake on one stream), Close once / "
+         "twice / three times with other objects created in between (fcntl(F_GETFD) on every other live descriptor), random "
+         "creation/close histories, and GC probes (read, and read + deferred write in flight, no user reference, two GC "
+         "cycles, then completion). Registry membership after every script line is also compared by the C01/C03 runs."),
+   note=("Trusted: Coq kernel, extraction, harness, the transcription of constructor error paths (validated only by the "
+         "census), the Go runtime opening no descriptors of its own mid-case. Not covered: descriptor-table exhaustion "
+         "(RLIMIT_NOFILE) as a failure point, the garbage collector itself, TLS dialling."),
+   technique="Coq proof (registry invariant by induction over the loop model; guard invariant over descriptor-table histories; finite sweep of constructor paths) + /proc/self/fd census correspondence + GC probes"),
 }
